@@ -915,6 +915,74 @@ func checkDCMISensorInfo(c *Ctx, r *Report) {
 			}
 		}
 	}
+	// or either form inside a helper spliced into the loop body (appendPage(collected, cmd.Rsp.RecordIDs))
+	if !okApp {
+		isPage := func(v ssa.Value) bool {
+			cands := []ssa.Value{v}
+			if _, isLd := v.(*ssa.UnOp); !isLd {
+				cands = viewOrigins(pager, v)
+			}
+			if len(cands) == 0 {
+				return false
+			}
+			for _, o := range cands {
+				ld, ok := stripConv(o).(*ssa.UnOp)
+				if !ok || ld.Op != token.MUL {
+					return false
+				}
+				aps := viewAPs(pager, ld.X)
+				if len(aps) == 0 {
+					return false
+				}
+				for _, a := range aps {
+					if a.SelString() != "Rsp.RecordIDs" {
+						return false
+					}
+				}
+			}
+			return true
+		}
+		vloops := viewLoops(pager)
+		viewInstrs(pager, func(in ssa.Instruction) {
+			call, ok := in.(*ssa.Call)
+			if !ok || len(call.Call.Args) != 2 {
+				return
+			}
+			if bi, ok := call.Call.Value.(*ssa.Builtin); !ok || bi.Name() != "append" {
+				return
+			}
+			if _, isSl := call.Type().Underlying().(*types.Slice); !isSl {
+				return
+			}
+			// whole page at once
+			if isPage(call.Call.Args[1]) {
+				okApp = true
+				return
+			}
+			// element by element in a counting loop
+			l := innermostLoop(vloops, call.Block())
+			if l == nil || !countingLoop(l.blockList()) {
+				return
+			}
+			if sl, ok := call.Call.Args[1].(*ssa.Slice); ok {
+				if al, ok := sl.X.(*ssa.Alloc); ok {
+					for _, ref := range *al.Referrers() {
+						if ia, ok := ref.(*ssa.IndexAddr); ok {
+							for _, r2 := range *ia.Referrers() {
+								if st, ok := r2.(*ssa.Store); ok {
+									if ld, ok := st.Val.(*ssa.UnOp); ok {
+										if ia2, ok := ld.X.(*ssa.IndexAddr); ok && isPage(ia2.X) {
+											okApp = true
+										}
+									}
+								}
+							}
+						}
+					}
+				}
+			}
+		})
+	}
 	r.Check(okApp, pname+"|append in order", send.Pos(), "every returned record ID appended, ascending", "the record IDs of a page are not all appended in response order")
 	// exits: len(Rsp.RecordIDs)==0 ; len(collected)==255 ; header len(collected) < total(byte)
 	exitEmpty, exit255, exitTotal := false, false, false
